@@ -36,7 +36,7 @@ def catalogue(present_kinds):
                     "data2D": ["RTSFormat", "SYNCFormat"]}.get(kind, [None])
             for fm in fmts:
                 out.append({"what": "unsupported-format", "kind": kind, "how": how, "fmt": fm})
-    for obj in ("none", "str", "track", "fake"):
+    for obj in ("none", "str", "track", "fake", "duck"):
         for how in ("add", "replace", "set"):
             out.append({"what": "wrong-object", "kind": "events", "how": how, "obj": obj})
     for what in ("comment-too-long", "comment-non-cp1252", "comment-with-NUL"):
